@@ -1,6 +1,6 @@
 #!/bin/bash
 # tools/reseed.sh [jobs]  - regression over all filed seeds: applies each seeded/<id>/patch.diff to a
-# scratch copy of /repo and re-runs the quick check(s) that caught it; prints one line per seed.
+# scratch copy of /repo and re-runs the check(s) that caught it (quick tier unless the entry's meta.json names another); prints one line per seed.
 cd "$(dirname "$0")/.."
 HERE=$(pwd)
 J=${1:-3}
@@ -16,7 +16,11 @@ print(' '.join(c['property'] for c in m['checks_run'] if c['exit']==1))")
   res=""
   caught=0
   for p in $props; do
-    out=$(REPO_DIR="$W" "$HERE/check" "$p" 2>&1); rc=$?
+    tier=$(python3 -c "
+import json
+m=json.load(open('$HERE/seeded/$id/meta.json'))
+print(next((c.get('tier','quick') for c in m['checks_run'] if c['exit']==1 and c['property']=='$p'),'quick'))")
+    out=$(REPO_DIR="$W" VERIF_TIER=$tier "$HERE/check" "$p" 2>&1); rc=$?
     k=$(echo "$out" | grep -E '^\s+key=' | head -1 | sed 's/^ *key=//' | cut -c1-60)
     res="$res $p:rc=$rc($k)"
     [ $rc -eq 1 ] && caught=1
